@@ -6,7 +6,7 @@ import checks_parser
 
 def stage_families(run, sizes, name="families"):
     res = os.path.join(run.work, name + ".ndjson")
-    s = run.harness(["parse-families", "-sizes", ",".join(str(x) for x in sizes), "-out", res], timeout=7200)
+    s = run_families(run, sizes, res)
     if s.get("hang"):
         run.stage(name, hang=True)
         # the record of the hanging call is the last line of the file; the judge reports it
